@@ -1,5 +1,6 @@
 import ComposeVerif.Ops.Common
 import ComposeVerif.Model.Extends
+import ComposeVerif.Model.ExtendsMerge
 import ComposeVerif.Gen.Tables
 /-! line-protocol ops for C05: `c05.apply` (ApplyExtends over a file-system table), `c05.extend` (plain ExtendService) -/
 open Lean
@@ -36,9 +37,10 @@ def perms : List String → List (List String)
   | [] => [[]]
   | x :: xs => (perms xs).flatMap fun p => (List.range (p.length + 1)).map fun i => p.take i ++ [x] ++ p.drop i
 
+/-- `"merge":"plain"` selects the rule-free merge of `Model/Extends.lean`; default = the C04 merge model -/
 def mkEnv (args : Json) : Env :=
   { mainFile := getStr args "main", fs := fsOfJson (getObj args "fs"),
-    extend := plainExtend CV.Gen.mergeSpecials }
+    extend := if getStr args "merge" == "plain" then plainExtend CV.Gen.mergeSpecials else mergeExtend }
 
 /-- all outcomes of `ApplyExtends` over the visit orders of the services map (Go's order is random):
     `{"outs":[…distinct…]}`; with more than 5 services only the list order and its reverse are tried. -/
@@ -58,10 +60,12 @@ def apply : Handler := fun args =>
     Json.mkObj [("outs", Json.arr (distinct.filterMap fun s => (Json.parse s).toOption).toArray)]
   | _ => Json.mkObj [("bad", "dict")]
 
-/-- plain `override.ExtendService` -/
+/-- `override.ExtendService`: through the C04 merge model (`full`) and through the rule-free merge (`plain`) -/
 def extend : Handler := fun args =>
   match Val.ofJson (getObj args "base"), Val.ofJson (getObj args "over") with
-  | .ok (.map b), .ok (.map o) => outJson (fun d => Val.toJson (.map d)) (plainExtend CV.Gen.mergeSpecials b o)
+  | .ok (.map b), .ok (.map o) =>
+    Json.mkObj [("full", outJson (fun d => Val.toJson (.map d)) (mergeExtend b o)),
+                ("plain", outJson (fun d => Val.toJson (.map d)) (plainExtend CV.Gen.mergeSpecials b o))]
   | _, _ => Json.mkObj [("bad", "args")]
 
 /-- `cycleTracker.Add` fed with a key sequence: index of the first rejected key, or -1 -/
